@@ -912,14 +912,16 @@ func canonSlice(t *Term) *Term {
 		return t
 	}
 	dst := ev.Args[1]
-	if dst.Op != "slice" || len(dst.Args) != 3 || dst.Args[0].Op != "self" {
-		return t
-	}
-	if lo, ok := isConstInt(dst.Args[1]); !ok || lo.Sign() != 0 {
-		return t
-	}
-	if hi, ok := isConstInt(dst.Args[2]); !ok || hi.Sign() != 0 {
-		return t
+	if dst.Op != "nil" { // (an empty slice of the array itself is already canonicalised to nil in the event)
+		if dst.Op != "slice" || len(dst.Args) != 3 || dst.Args[0].Op != "self" {
+			return t
+		}
+		if lo, ok := isConstInt(dst.Args[1]); !ok || lo.Sign() != 0 {
+			return t
+		}
+		if hi, ok := isConstInt(dst.Args[2]); !ok || hi.Sign() != 0 {
+			return t
+		}
 	}
 	h := ev.Args[0]
 	ctor := h
@@ -1121,12 +1123,137 @@ func (b *Builder) history(root ssa.Value, at ssa.Instruction, depth int) []*Term
 		e := all[pick]
 		all = append(all[:pick], all[pick+1:]...)
 		if e.may {
+			if un := b.unrollEach(e.ins, e.term, at, depth); un != nil {
+				out = append(out, un...)
+				continue
+			}
 			out = append(out, b.mk("maybe", "", nil, e.term))
 		} else {
 			out = append(out, e.term)
 		}
 	}
 	return out
+}
+
+// unrollEach: an event in the body of `for _, x := range X` that runs in every
+// iteration of a loop left only through its header, where X is a slice literal
+// with statically known elements (typically the variadic arguments of the
+// call, bound by the caller), is the sequence of the event for x = X[0], X[1], ….
+func (b *Builder) unrollEach(ins ssa.Instruction, ev *Term, at ssa.Instruction, depth int) []*Term {
+	blk := ins.Block()
+	for _, be := range BackEdges(b.Fn) {
+		loop := LoopBlocks(be)
+		if !loop[blk] || loop[at.Block()] {
+			continue
+		}
+		hdr := be.To
+		ifi, ok := hdr.Instrs[len(hdr.Instrs)-1].(*ssa.If)
+		if !ok || !loop[hdr.Succs[0]] || loop[hdr.Succs[1]] {
+			continue
+		}
+		// one back edge to this header; no exit but the header's; the event runs in every iteration
+		nBack := 0
+		for _, o := range BackEdges(b.Fn) {
+			if o.To == hdr {
+				nBack++
+			}
+		}
+		if nBack != 1 || !blk.Dominates(be.From) {
+			return nil
+		}
+		for x := range loop {
+			if x == hdr {
+				continue
+			}
+			for _, sx := range x.Succs {
+				if !loop[sx] {
+					return nil
+				}
+			}
+			if len(x.Succs) == 0 {
+				return nil
+			}
+		}
+		bd, m := Match("bin<<>(ind<+1>(0), len($c))", b.of(ifi.Cond, ifi, depth+1))
+		if !m {
+			return nil
+		}
+		coll := bd["$c"]
+		elems := literalElems(coll)
+		if elems == nil {
+			return nil
+		}
+		cur := (&Term{Op: "load", Args: []*Term{{Op: "iaddr", Args: []*Term{coll, {Op: "ind", Name: "+1", Args: []*Term{{Op: "const", Name: "0"}}}}}}}).String()
+		var out []*Term
+		for _, el := range elems {
+			out = append(out, substTerm(ev, cur, el))
+		}
+		return out
+	}
+	return nil
+}
+
+// literalElems returns the elements of slice(obj(alloc<[N]T>, store(iaddr(self,0),e0), …, store(iaddr(self,N-1),eN-1)), 0, none|N).
+func literalElems(t *Term) []*Term {
+	if t.Op != "slice" || len(t.Args) < 3 {
+		return nil
+	}
+	if lo, ok := isConstInt(t.Args[1]); !ok || lo.Sign() != 0 {
+		return nil
+	}
+	base := t.Args[0]
+	if base.Op != "obj" || len(base.Args) < 2 || base.Args[0].Op != "alloc" || !strings.HasPrefix(base.Args[0].Name, "[") {
+		return nil
+	}
+	n := len(base.Args) - 1
+	if hi, ok := isConstInt(t.Args[2]); t.Args[2].Op != "none" && (!ok || hi.Int64() != int64(n)) {
+		return nil
+	}
+	if !strings.HasPrefix(base.Args[0].Name, fmt.Sprintf("[%d]", n)) {
+		return nil
+	}
+	var out []*Term
+	for k := 0; k < n; k++ {
+		st := base.Args[k+1]
+		if st.Op != "store" || len(st.Args) != 2 {
+			return nil
+		}
+		a := st.Args[0]
+		if a.Op != "iaddr" || len(a.Args) != 2 || a.Args[0].Op != "self" {
+			return nil
+		}
+		if idx, ok := isConstInt(a.Args[1]); !ok || idx.Int64() != int64(k) {
+			return nil
+		}
+		out = append(out, st.Args[1])
+	}
+	return out
+}
+
+// substTerm replaces every sub-term printing as old by repl.
+func substTerm(t *Term, old string, repl *Term) *Term {
+	if t == nil {
+		return nil
+	}
+	if t.String() == old {
+		return repl
+	}
+	if len(t.Args) == 0 {
+		return t
+	}
+	n := &Term{Op: t.Op, Name: t.Name, Idx: t.Idx, V: t.V, C: t.C}
+	changed := false
+	for _, a := range t.Args {
+		na := substTerm(a, old, repl)
+		if na != a {
+			changed = true
+		}
+		n.Args = append(n.Args, na)
+	}
+	if !changed {
+		return t
+	}
+	return n
 }
 
 // pathTerm prints the address path from root to addr (fields, indices).
